@@ -103,6 +103,13 @@ def _kind_of(dt):
 
 
 def _observe(df):
+    # the table is concrete whenever it is observed (cell values are concrete, the symbolic choices have been
+    # made): the walk runs with the tracer suspended
+    with untraced():
+        return _observe_c(df)
+
+
+def _observe_c(df):
     """everything the public API reports about the table"""
     units = df.units
     rows = [tuple(r) for r in _plain(df[:])]
@@ -485,14 +492,24 @@ def _run_ops(blk, sc, variant, n, ops, reopen):
     if variant == 3:
         assume(n > 0)
     df, tab = _create(blk, "d", schema, variant, n)
-    for (op, r, r2, c, s1, s2) in ops:
+    df2 = blk.data_frames["d"]              # a second live handle of the same frame ...
+    if "bad" in _observe(df2):              # ... that has read the table before anything happens
+        return _no("second handle: " + _observe(df2)["bad"])
+    for step in ops:
+        (op, r, r2, c, s1, s2) = step[:6]
+        h = df2 if (len(step) > 6 and step[6]) else df
         if op == "read_cell":
-            if not _check_reads(df, tab, r, c):
+            if not _check_reads(h, tab, r, c):
                 return False
             continue
-        res = _apply(df, tab, op, r, r2, c, s1, s2)
-        tab = _judge(df, tab, res, reopen)
+        res = _apply(h, tab, op, r, r2, c, s1, s2)
+        tab = _judge(h, tab, res, reopen)
         if tab is None:
+            return False
+        # ... and both handles describe the same table afterwards
+        other = df if h is df2 else df2
+        if not _same(_observe(other), tab):
+            WHY.append("(seen through the other live handle)")
             return False
     return True
 
@@ -537,7 +554,7 @@ def _ob_one_op(variant: int, n: int, r: int, r2: int, c: int, s1: int, s2: int) 
     return _run_ops(blk, sc, variant, n, [(op, r, r2, c, s1, s2)], reopen)
 
 
-def _ob_two_ops(n: int, op2: int, s1: int, r_b: int, c_b: int, s1_b: int, s2_b: int) -> bool:
+def _ob_two_ops(n: int, op2: int, s1: int, r_b: int, c_b: int, s1_b: int, s2_b: int, va: bool, vb: bool) -> bool:
     """
     pre: 1 <= n <= 2
     pre: 0 <= op2 < 10
@@ -547,7 +564,9 @@ def _ob_two_ops(n: int, op2: int, s1: int, r_b: int, c_b: int, s1_b: int, s2_b: 
     pre: 0 <= s2_b < 5
     post: __return__
     """
-    op1, sc = PART
+    op1, sc, hsel = PART
+    if hsel is not None:                   # the partition pins which handle each operation goes through
+        assume(va == hsel[0] and vb == hsel[1])
     f, blk, reopen = _fake_fixture()
     o2 = _pick(OPS[:10], op2)
     m = len(SCHEMAS[sc]) + 1
@@ -560,9 +579,11 @@ def _ob_two_ops(n: int, op2: int, s1: int, r_b: int, c_b: int, s1_b: int, s2_b: 
         assume(-m - 1 <= c_b <= m)
     # first operation: a legal one with fixed addressing (last row / last column), one selector free;
     # second operation: everything symbolic; then reads of the cell addressed by the second one
-    return _run_ops(blk, sc, 0, n, [(op1, n - 1, 0, len(SCHEMAS[sc]) - 1, s1, 0),
-                                    (o2, r_b, r_b + 1, c_b, s1_b, s2_b),
-                                    ("read_cell", r_b, 0, c_b, 0, 0)], reopen)
+    # each operation goes through the first (False) or the second (True) live handle; the reads follow the
+    # handle of the second operation
+    return _run_ops(blk, sc, 0, n, [(op1, n - 1, 0, len(SCHEMAS[sc]) - 1, s1, 0, va),
+                                    (o2, r_b, r_b + 1, c_b, s1_b, s2_b, vb),
+                                    ("read_cell", r_b, 0, c_b, 0, 0, vb)], reopen)
 
 
 def validate():
@@ -620,13 +641,13 @@ def _replay_one(args):
 
 def _replay_two(args):
     a = args
-    op1, sc = PART
+    op1, sc = PART[:2]
     n = a["n"]
     return _real(lambda f, blk, reopen: _run_ops(
         blk, sc, 0, n,
-        [(op1, n - 1, 0, len(SCHEMAS[sc]) - 1, a["s1"], 0),
-         (OPS[a["op2"]], a["r_b"], a["r_b"] + 1, a["c_b"], a["s1_b"], a["s2_b"]),
-         ("read_cell", a["r_b"], 0, a["c_b"], 0, 0)], reopen))
+        [(op1, n - 1, 0, len(SCHEMAS[sc]) - 1, a["s1"], 0, a["va"]),
+         (OPS[a["op2"]], a["r_b"], a["r_b"] + 1, a["c_b"], a["s1_b"], a["s2_b"], a["vb"]),
+         ("read_cell", a["r_b"], 0, a["c_b"], 0, 0, a["vb"])], reopen))
 
 
 _FUNCS = ["nixio.block.Block.create_data_frame", "nixio.data_frame.DataFrame.create_new",
@@ -651,12 +672,16 @@ OBLIGATIONS = [
        outside="row index: every integer; column index: -8..8; one operation on a freshly created table; "
                "negative in-range indices may be refused or address position index + count"),
     Ob("two_operations", _ob_two_ops, timeout=1500,
-       partition_by_tier={"quick": [(op, 0) for op in ("append_column", "append_rows", "set_units")] +
-                          [("append_column", 1), ("set_units", 1)],
-                          "thorough": [(op, sc) for op in OPS[:9] for sc in range(3)]},
+       partition_by_tier={
+           "quick": [("append_column", 0, (False, True)), ("append_rows", 0, (False, True)),
+                     ("set_units", 0, (True, False)), ("append_column", 1, (False, False)),
+                     ("write_column_by_index", 0, (False, True))],
+           "thorough": [(op, sc, hs) for op in OPS[:9] for sc in range(3)
+                        for hs in ((False, False), (False, True), (True, False))]},
        functions=_FUNCS, replay=_replay_two,
-       outside="histories of two operations followed by reads: the first one legal with fixed addressing (last "
-               "row / last column), the second one fully symbolic (row index unbounded); 1-2 initial rows, "
+       outside="histories of two operations followed by reads, each through either of two live handles of the frame: "
+               "the first one legal with fixed addressing (last row / last column), the second one fully "
+               "symbolic (row index unbounded); 1-2 initial rows, "
                "col_dict creation; longer histories"),
 ]
 
